@@ -312,8 +312,9 @@ impl<'r, 't> Iterator for Matches<'r, 't> {
                 Ok(Some(mat)) => mat,
             };
 
-        if mat.start == mat.end {
-            // This is an empty match. To ensure we make progress, start
+        if mat.start == mat.end || mat.end == self.last_end {
+            // This is an empty match (or, with `\K` inside a look-behind, a match
+            // that ends where the search started). To ensure we make progress, start
             // the next search at the smallest possible starting position
             // of the next match following this one.
             self.last_end = next_utf8(self.text, mat.end);
@@ -386,7 +387,7 @@ impl<'r, 't> Iterator for CaptureMatches<'r, 't> {
         let mat = captures
             .get(0)
             .expect("`Captures` is expected to have entire match at 0th position");
-        if mat.start == mat.end {
+        if mat.start == mat.end || mat.end == self.0.last_end {
             self.0.last_end = next_utf8(self.0.text, mat.end);
             if Some(mat.end) == self.0.last_match {
                 return self.next();
